@@ -148,6 +148,44 @@ func vh_C11_SharedParent() {
 	vfReach("end")
 }
 
+// the bound function may return ANY MonadIO - also the very one FlatMap was called on: m.FlatMap(_ -> m) is "m, then m
+// again": m's effects run twice per evaluation, in order, and the second value is the result
+func vh_C11_BindReturnsItsSource() {
+	runs := 0
+	x := vfInt("x")
+	var m *MonadIODef[int]
+	m = MonadIONewGenerics(func() int { runs++; return vfFn("E", x, runs) })
+	var composed *MonadIODef[int]
+	switch vfChoose("returns", 3) {
+	case 0:
+		composed = m.FlatMap(func(int) *MonadIODef[int] { return m })
+	case 1: // one FlatMap further down the chain
+		composed = m.FlatMap(func(v int) *MonadIODef[int] { return MonadIOJustGenerics(v) }).FlatMap(func(int) *MonadIODef[int] { return m })
+	default: // the composed monad itself is what a later bind returns
+		inner := m.FlatMap(func(v int) *MonadIODef[int] { return MonadIOJustGenerics(v) })
+		composed = inner.FlatMap(func(int) *MonadIODef[int] { return inner })
+	}
+	vfAssert("lazy-no-effect-at-construction", runs == 0)
+	var got int
+	onNext := 0
+	viaSubscribe := vfChoose("via", 2) == 1
+	if !vfNoPanic("nopanic", func() {
+		if viaSubscribe {
+			composed.Subscribe(Subscription[int]{OnNext: func(v int) { got = v; onNext++ }})
+		} else {
+			got = composed.Eval()
+		}
+	}) {
+		return
+	}
+	vfAssert("effects-once-in-order", runs == 2)
+	vfAssert("value", got == vfFn("E", x, 2))
+	if viaSubscribe {
+		vfAssert("onnext-exactly-once", onNext == 1)
+	}
+	vfReach("end")
+}
+
 func vh_C11_Laws() {
 	e := &c11Env{}
 	x := vfInt("x")
